@@ -85,8 +85,20 @@ func expected(stream []byte) (frames []byte, readable string, n int, fault strin
 }
 
 func body(stream []byte, display, record, split bool, sizes []int) func(x *mcrt.X) {
+	return bodyG(stream, display, record, split, sizes, false)
+}
+
+// bodyG: with gated, the output writer stalls in its first Write until a timer
+// thread opens the gate - by default as late as possible (when nothing else can
+// run), earlier along the explorer's alternatives.
+func bodyG(stream []byte, display, record, split bool, sizes []int, gated bool) func(x *mcrt.X) {
 	return func(x *mcrt.X) {
-		obs := &obsT{out: &hsink.Sink{Name: "stdout", Split: split}, sinks: &hsink.Sinks{Split: split},
+		var gate chan struct{}
+		if gated {
+			gate = make(chan struct{})
+			mcrt.GoLow("gate-timer", func() { mcrt.Sleep(time.Second); mcrt.Close(gate) })
+		}
+		obs := &obsT{out: &hsink.Sink{Name: "stdout", Split: split, Gate: gate}, sinks: &hsink.Sinks{Split: split},
 			src: &hsink.ChunkReader{Data: stream, Reset: true, Sizes: sizes}, display: display, record: record}
 		x.Data = obs
 		mcrt.NewDailySink = obs.sinks.New
@@ -188,7 +200,7 @@ func smallStreams() (map[string][]byte, []string) {
 func propC10() *harness.Prop {
 	return &harness.Prop{
 		ID: "C10",
-		Rule: "rtcmfilter.HandleMessages (the shipped function, in-package harness) under the controlled scheduler with harness-owned stdout, record and display writers whose every Write is a scheduling point. Schedule dimension: 9 small streams x {display,record} in {0,1}^2 x every interleaving of main, reader, framing, fan-out and 1-3 writer goroutines and every source chunking (state-key pruning; deviation bound 1/2 where the unbounded pass is cut). Input dimension: every sequence of <=2 (quick) / <=3 (thorough) segments from a 19-entry menu (valid frames, NMEA, UBX, junk with 0xD3, lone D3, bad leaders, truncations, corrupted frames) with display and record on, default schedule. Oracle at quiescence: stdout == concatenation of the valid frames of the sequential framing, record identical, display text == one String() entry per delivered message. Non-trivial = distinct schedule trace",
+		Rule: "rtcmfilter.HandleMessages (the shipped function, in-package harness) under the controlled scheduler with harness-owned stdout, record and display writers whose every Write is a scheduling point. Schedule dimension: 9 small streams x {display,record} in {0,1}^2 x every interleaving of main, reader, framing, fan-out and 1-3 writer goroutines and every source chunking (state-key pruning; deviation bound 1/2 where the unbounded pass is cut). Input dimension: every sequence of <=2 (quick) / <=3 (thorough) segments from a 19-entry menu (valid frames, NMEA, UBX, junk with 0xD3, lone D3, bad leaders, truncations, corrupted frames) with display and record on, default schedule. plus a stalled-writer scenario (twelve distinct frames, the output writer blocks in its first Write until a timer thread lets it go, by default as late as possible). Oracle at quiescence: stdout == concatenation of the valid frames of the sequential framing, record identical, display text == one String() entry per delivered message. Non-trivial = distinct schedule trace",
 		Assumptions: []string{"dailylogger.New is redirected at build time to an in-memory sink (file naming and rotation belong to the go-tools dependency)", "which segments are 'valid frames as delimited by the framing rules' is taken from the implementation's own sequential framing filtered by the independent IsFrame predicate (differential oracle), as the statement defines", "judged at quiescence; whether the output is complete when the call returns is C11"},
 		Scenarios:      scenariosC10,
 		QuickBudget:    60 * time.Second,
@@ -246,6 +258,16 @@ func scenariosC10(tier string) []*mcrt.Scenario {
 				})
 			}
 		}
+	}
+	// a writer that stalls while input keeps flowing: twelve distinct frames
+	var many []byte
+	for i := 0; i < 12; i++ {
+		many = append(many, ref.TypedFrame(1001+i, 2+i%3, func(k int) byte { return byte(16*i + k) })...)
+	}
+	for _, rcd := range []bool{false, true} {
+		rcd := rcd
+		scs = append(scs, &mcrt.Scenario{Name: fmt.Sprintf("stalled-writer 12-frames record=%v", rcd), Bound: 1, Horizon: 200000, Prune: true,
+			Body: bodyG(many, false, rcd, false, []int{0}, true), Check: checkC10(many)})
 	}
 	return scs
 }
@@ -319,6 +341,28 @@ func scenariosC11(tier string) []*mcrt.Scenario {
 			}
 		}
 	}
+	var many []byte
+	for i := 0; i < 12; i++ {
+		many = append(many, ref.TypedFrame(1001+i, 2+i%3, func(k int) byte { return byte(16*i + k) })...)
+	}
+	wantMany, _, _, faultMany := expected(many)
+	scs = append(scs, &mcrt.Scenario{Name: "rtcmfilter stalled-writer 12-frames", Bound: 1, Horizon: 200000, Prune: true,
+		Body: bodyG(many, false, false, false, []int{0}, true),
+		Check: func(x *mcrt.X) *mcrt.Failure {
+			if faultMany != "" {
+				return &mcrt.Failure{Kind: "sequential-framing-failed", Detail: faultMany}
+			}
+			if f := basic(x); f != nil {
+				return f
+			}
+			obs := x.Data.(*obsT)
+			if !bytes.Equal(obs.atReturn, wantMany) {
+				return &mcrt.Failure{Kind: "app=rtcmfilter returned-before-writer-finished",
+					Detail: fmt.Sprintf("%d of %d output bytes written (or wrong bytes) when HandleMessages returned after a stalled writer", len(obs.atReturn), len(wantMany))}
+			}
+			harness.Outcome("rtcmfilter complete-at-return")
+			return nil
+		}})
 	return scs
 }
 
